@@ -340,9 +340,8 @@ pub open spec fn sharded_frame(old: World, fin: World, root: PathV, n: usize, na
             ('C16:invalid-names-fail-with-invalid-input-and-touch-nothing',
              '!first_byte_ok(str_bytes(key.name)) ==> r.is_err() && err_kind(err_of(r)) == ErrorKind::InvalidInput && *final(w) == *old(w)'),
             ('C15 C09:lookup-changes-nothing-but-the-access-time-of-an-entry-under-this-key',
-             'final(w).files == old(w).files && final(w).dirs == old(w).dirs && forall|i: InodeId| old(w).inodes.contains_key(i) ==> '
-             '#[trigger] final(w).inodes[i] == (Inode { atime: final(w).inodes[i].atime, ..old(w).inodes[i] }) '
-             '&& (final(w).inodes[i].atime != old(w).inodes[i].atime ==> (old(w).files.contains_key(%s) && i == old(w).files[%s]) '
+             'final(w).atime_only(*old(w)) && forall|i: InodeId| #[trigger] old(w).inodes.contains_key(i) ==> '
+             '(final(w).inodes[i].atime != old(w).inodes[i].atime ==> (old(w).files.contains_key(%s) && i == old(w).files[%s]) '
              '|| (old(w).files.contains_key(%s) && i == old(w).files[%s]))' % (P1, P1, P2, P2)),
             ('C18 C05:error-is-an-invalid-name-or-a-real-fault', 'r.is_err() ==> %s || final(w).hard_faults > old(w).hard_faults' % BADNAME),
         ]
@@ -350,7 +349,7 @@ pub open spec fn sharded_frame(old: World, fin: World, root: PathV, n: usize, na
             ens += [
                 ('C06 C20:at-most-two-opens-six-calls', 'final(w).steps <= old(w).steps + 6 && final(w).opens <= old(w).opens + 2'),
                 ('C12 C11 C01 C19:primary-candidate-is-probed-first-then-the-secondary',
-                 'r.is_ok() && r.unwrap().is_some() ==> !r.unwrap().unwrap().can_write() && ((old(w).files.contains_key(%s) && r.unwrap().unwrap().ino() == old(w).files[%s]) '
+                 'r.is_ok() && r.unwrap().is_some() ==> !r.unwrap().unwrap().can_write() && r.unwrap().unwrap().offset() == 0 && ((old(w).files.contains_key(%s) && r.unwrap().unwrap().ino() == old(w).files[%s]) '
                  '|| (!old(w).files.contains_key(%s) && old(w).files.contains_key(%s) && r.unwrap().unwrap().ino() == old(w).files[%s]))' % (P1, P1, P1, P2, P2)),
                 ('C12 C11 C05 C18:miss-means-absent-from-both-candidates',
                  'r.is_ok() && r.unwrap().is_none() ==> !old(w).files.contains_key(%s) && !old(w).files.contains_key(%s)' % (P1, P2)),
